@@ -1,11 +1,20 @@
-import sys; sys.path.insert(0,'/verif')
+import sys, os; sys.path.insert(0,'/verif')
 from vx import engine
 u = sys.argv[1]
+only = sys.argv[2] if len(sys.argv) > 2 else None
+if only:
+    orig = engine.run_verus
+    def rv(gen_path, extra_args, rlimit=None, timeout=1500, only_fn=None):
+        return orig(gen_path, extra_args, rlimit=rlimit, timeout=timeout, only_fn=only)
+    engine.run_verus = rv
 try:
     r = engine.verify_unit(u)
     print('verified', r['verified'], 'errors', r['errors'], 'wall %.1f' % r['wall'])
+    lines = r['text'].split('\n')
     for f in r['fails']:
-        print('FAIL', f['fn'], '|', f['message'], '|', f['tags'], '|', f['clause_text'], f['src_lines'], f['gen_lines'])
+        print('FAIL', f['fn'], '|', f['message'], '|', f['tags'])
+        for ln, lab in f['gen_lines']:
+            print('     gen:%d %s | %s' % (ln, lab or '', lines[ln-1].strip()[:150]))
     for b in r['breakdown']:
         if not b['success'] or (b['ms'] or 0) > 2000: print(b)
     print(r['ex'].notes)
